@@ -513,13 +513,72 @@ def fam_concurrent(w: World) -> None:
             return
 
 
-FAMILIES = {'match.concurrent': fam_concurrent, 'match.batch': fam_batch, 'match.single': fam_single, 'match.reuse': fam_reuse, 'match.inline': fam_inline}
+def fam_retried(w: World) -> None:
+    """A batch sent by a client whose retry strategy lists the identity error: a rejected reply is followed by another
+    delivery, and every delivery has to be matched afresh against the same request."""
+    from pjrpc.client import retry as pj_retry
+    from pjrpc.common.exceptions import IdentityError
+    ch = w.ch
+    client_async = bool(ch.draw(2, 'client_async'))
+    via = ['send', 'call'][ch.draw(2, 'via')]
+    n = 1 + ch.draw(3, 'n_calls')
+    n_deliveries = 2 + ch.draw(2, 'deliveries')
+    kinds = [ch.choice(['omit', 'extra', 'dup', 'permute', 'none', 'id_foreign', 'omit'], 'fault') for _ in range(n_deliveries)]
+    faults = [_draw_fault(ch, k, n) for k in kinds]
+    listed = ch.choice(['identity', 'base', 'exception'], 'listed')
+    ids = ch.shuffle(ID_POOL, 'ids')[:n]
+    n_notif = ch.draw(2, 'n_notifications')
+    w.scenario = {'client_async': client_async, 'via': via, 'n': n, 'faults': faults, 'listed': listed, 'ids': ids,
+                  'notifications': n_notif}
+    w.nontrivial = True
+    exc_cls = {'identity': IdentityError, 'base': pjrpc.exceptions.BaseError, 'exception': Exception}[listed]
+    strategy = pj_retry.RetryStrategy(backoff=pj_retry.PeriodicBackoff(attempts=n_deliveries - 1, interval=0.0),
+                                      exceptions={exc_cls})
+    st = Stack(w, client_async, bool(ch.draw(2, 'server_async')),
+               client_kwargs={'strict': True, 'retry_strategy': strategy}, script=[{'resp': f} for f in faults])
+    reqs = [pjrpc.Request('echo', [f't{k}', k], i) for k, i in enumerate(ids)]
+    all_reqs = list(reqs)
+    for j in range(n_notif):
+        all_reqs.insert(ch.draw(len(all_reqs) + 1, 'notif.pos'), pjrpc.Request('echo', [f'n{j}', j], None))
+    b = st.client.batch
+    breq = pjrpc.BatchRequest(*all_reqs)
+    try:
+        if via == 'send':
+            outcome: Tuple[Any, ...] = ('value', st.run(lambda: b.send(breq)))
+        else:
+            b._requests = breq
+            outcome = ('value', st.run(lambda: b.call()))
+    except Exception as e:  # noqa: BLE001
+        outcome = ('raise', e)
+    delivered = [r['text'] for r in w.history if r['kind'] == 'wire.deliver']
+    sent = st.net.sent
+    sent_doc = json.loads(sent[0])
+    # the reference: a delivery rejected with the identity error is retried while attempts remain
+    final = 0
+    for k in range(n_deliveries):
+        final = k
+        if k >= len(delivered):
+            break
+        if RC.match_batch(sent_doc, delivered[k], True)['verdict'] != 'identity':
+            break
+    ctx = {'fault': kinds[final], 'strict': True, 'via': via, 'client_async': client_async, 'kind': 'retried',
+           'n': n, 'listed': listed, 'final_delivery': final}
+    if len(sent) != final + 1 or len(delivered) != final + 1:
+        w.violate('C08.retried', f'{len(sent)} sends / {len(delivered)} deliveries; the reference stops after delivery '
+                  f'{final} (verdicts {[RC.match_batch(sent_doc, t, True)["verdict"] for t in delivered]})', **ctx)
+        return
+    if final > 0:
+        w.probe('retried_after_identity_error')
+    _judge_batch(w, sent_doc, delivered[final], True, outcome, reqs, via, ctx)
+
+
+FAMILIES = {'match.retried': fam_retried, 'match.concurrent': fam_concurrent, 'match.batch': fam_batch, 'match.single': fam_single, 'match.reuse': fam_reuse, 'match.inline': fam_inline}
 SYSTEMATIC = {'match.batch': systematic_batch, 'match.single': systematic_single}
 PLAN = {
     'quick': {'match.batch': 80000, 'match.single': 32000, 'match.reuse': 16000, 'match.inline': 10000,
-              'match.concurrent': 16000},
+              'match.concurrent': 16000, 'match.retried': 16000},
     'thorough': {'match.batch': 80000, 'match.single': 30000, 'match.reuse': 30000, 'match.inline': 30000,
-                 'match.concurrent': 30000},
+                 'match.concurrent': 30000, 'match.retried': 30000},
 }
 THOROUGH_BUDGET_S = 600
 RULE = ('systematic part: every combination of (number of calls, response-fault kind, strict flag, client kind, '
